@@ -4,7 +4,7 @@ from props.m1common import hist_compare, hist_oracle, hist_times, g, sp, sx, rng
 from props import C05 as _c5
 
 PID = "C06"
-KERNELS = ['K_abstf', 'K_split_child_at', 'K_split_at', 'K_slide_in']   # translated from /repo on every run, tied to the model by coq/Gen/<name>_eq.v
+KERNELS = ['K_abstf', 'K_split_child_at', 'K_split_at', 'K_slide_in', 'K_sim_handlers']   # translated from /repo on every run, tied to the model by coq/Gen/<name>_eq.v
 RUNNER = "impl_m1.py"
 VM_CROSSCHECK = True
 N = {"quick": 2000, "thorough": 80000}
